@@ -71,6 +71,8 @@ pub enum G {
     SIterCheck,
     SDebugCheck,
     SProbe,
+    SerdeMap,
+    SerdeSet,
 }
 
 #[derive(Clone, Debug)]
@@ -671,6 +673,17 @@ impl<'a> Gen<'a> {
             G::SIterCheck => Op::SIterCheck { s: su, clone_at: if self.rng.chance(1, 2) { Some(self.rng.below(20) as u32) } else { None } },
             G::SDebugCheck => Op::SDebugCheck { s: su },
             G::SProbe => Op::SProbe { s: su, max: 5000 },
+            G::SerdeMap => Op::SerdeMap { m: mu },
+            G::SerdeSet => {
+                let dst = other(self.rng, s, ns);
+                let fail_at = if self.rng.chance(1, 3) { Some(self.rng.below(40) as u32) } else { None };
+                // the destination ends up with the source's elements (or a prefix of them)
+                let src_shadow = self.shadow.sets[s].clone();
+                if (dst as usize) != s {
+                    self.shadow.sets[dst as usize] = src_shadow;
+                }
+                Op::SerdeSet { s: su, dst, hint: self.rng.below(5) as u8, fail_at }
+            }
         }
     }
 
@@ -797,5 +810,174 @@ pub fn generate(rng: &mut Rng, prof: &Profile) -> RunSpec {
         cfg.full_check_every = 16;
     }
     ops.shrink_to_fit();
+    RunSpec { cfg, ops, faults: Vec::new() }
+}
+
+/// C14: the same target contents reached in three maps and three sets by different histories,
+/// capacities, resize phases and hasher states; then observed; then minimally changed.
+pub fn generate_c14(rng: &mut Rng) -> RunSpec {
+    let mut prof = Profile::base();
+    prof.maps = 3;
+    prof.sets = 3;
+    prof.elem = [6, 3, 1];
+    let mut cfg = Gen::draw_config(rng, &prof);
+    let uni = cfg.universe;
+    // target contents
+    let size = if uni == 1 {
+        rng.below(2) as usize
+    } else {
+        let max = (uni as u64 * 3 / 4).min(260);
+        (match rng.below(4) {
+            0 => rng.below(4.min(max + 1)),
+            1 => rng.below(20.min(max + 1)),
+            _ => rng.below(max + 1),
+        }) as usize
+    };
+    let mut keys: Vec<u32> = Vec::new();
+    {
+        let mut seen = BTreeSet::new();
+        let mut guard = 0;
+        while keys.len() < size && guard < size * 20 + 20 {
+            guard += 1;
+            let k = rng.below(uni as u64) as u32;
+            if seen.insert(k) {
+                keys.push(k);
+            }
+        }
+    }
+    let target: Vec<(u32, u32)> = keys.iter().enumerate().map(|(i, &k)| (k, 1000 + i as u32)).collect();
+    let inset: BTreeSet<u32> = keys.iter().copied().collect();
+    let mut ops: Vec<Op> = Vec::new();
+    let mut tmp_p = 500_000u32;
+    for slot in 0..3u8 {
+        for set in [false, true] {
+            let mut order = target.clone();
+            // Fisher-Yates
+            for i in (1..order.len()).rev() {
+                let j = rng.below(i as u64 + 1) as usize;
+                order.swap(i, j);
+            }
+            let mut detours: Vec<u32> = Vec::new();
+            let style = rng.below(4); // 0: plain, 1: detours, 2: detours + capacity games, 3: extend
+            if style == 3 && !order.is_empty() {
+                if set {
+                    ops.push(Op::SExtend { s: slot, items: order.iter().map(|x| x.0).collect(), by_ref: rng.chance(1, 2) });
+                } else {
+                    ops.push(Op::Extend { m: slot, items: order.clone(), by_ref: rng.chance(1, 2) });
+                }
+            } else {
+                for &(kv, p) in &order {
+                    if style >= 1 && uni > 1 && rng.chance(1, 5) {
+                        let d = rng.below(uni as u64) as u32;
+                        if !inset.contains(&d) && !detours.contains(&d) {
+                            detours.push(d);
+                            if set {
+                                ops.push(Op::SInsert { s: slot, k: KeySel::Kv(d) });
+                            } else {
+                                tmp_p += 1;
+                                ops.push(Op::Insert { m: slot, k: KeySel::Kv(d), p: tmp_p });
+                            }
+                        }
+                    }
+                    if style >= 1 && !set && rng.chance(1, 6) {
+                        tmp_p += 1;
+                        ops.push(Op::Insert { m: slot, k: KeySel::Kv(kv), p: tmp_p });
+                    }
+                    if set {
+                        ops.push(Op::SInsert { s: slot, k: KeySel::Kv(kv) });
+                    } else {
+                        ops.push(Op::Insert { m: slot, k: KeySel::Kv(kv), p });
+                    }
+                    if style == 2 && rng.chance(1, 12) {
+                        let op = match (rng.below(4), set) {
+                            (0, false) => Op::Reserve { m: slot, n: Arg::Abs(rng.below(100) as usize) },
+                            (1, false) => Op::ShrinkToFit { m: slot },
+                            (2, false) => Op::ShrinkTo { m: slot, n: Arg::Len(rng.below(20) as i32) },
+                            (_, false) => Op::Reserve { m: slot, n: Arg::Free(1) },
+                            (0, true) => Op::SReserve { s: slot, n: Arg::Abs(rng.below(100) as usize) },
+                            (1, true) => Op::SShrinkToFit { s: slot },
+                            (2, true) => Op::SShrinkTo { s: slot, n: Arg::Len(rng.below(20) as i32) },
+                            (_, true) => Op::SReserve { s: slot, n: Arg::Free(1) },
+                        };
+                        ops.push(op);
+                    }
+                    if !detours.is_empty() && rng.chance(1, 4) {
+                        let d = detours.swap_remove(rng.below(detours.len() as u64) as usize);
+                        if set {
+                            ops.push(Op::SRemove { s: slot, k: KeySel::Kv(d) });
+                        } else {
+                            ops.push(Op::Remove { m: slot, k: KeySel::Kv(d) });
+                        }
+                    }
+                }
+            }
+            for d in detours {
+                if set {
+                    ops.push(Op::SRemove { s: slot, k: KeySel::Kv(d) });
+                } else {
+                    ops.push(Op::Remove { m: slot, k: KeySel::Kv(d) });
+                }
+            }
+            // final phase: often leave a resize in flight
+            if rng.chance(1, 2) {
+                let n = match rng.below(3) {
+                    0 => Arg::Free(1),
+                    1 => Arg::Cap(1),
+                    _ => Arg::Abs(rng.below(300) as usize),
+                };
+                if set {
+                    ops.push(Op::SReserve { s: slot, n });
+                } else {
+                    ops.push(Op::Reserve { m: slot, n });
+                }
+                if uni > 1 && rng.chance(1, 2) {
+                    // move part of the old table: add and remove a key that is not in the target
+                    for _ in 0..rng.range(1, 3) {
+                        let d = rng.below(uni as u64) as u32;
+                        if !inset.contains(&d) {
+                            if set {
+                                ops.push(Op::SInsert { s: slot, k: KeySel::Kv(d) });
+                                ops.push(Op::SRemove { s: slot, k: KeySel::Kv(d) });
+                            } else {
+                                tmp_p += 1;
+                                ops.push(Op::Insert { m: slot, k: KeySel::Kv(d), p: tmp_p });
+                                ops.push(Op::Remove { m: slot, k: KeySel::Kv(d) });
+                            }
+                        }
+                    }
+                }
+            }
+        }
+    }
+    let observe = |ops: &mut Vec<Op>, rng: &mut Rng| {
+        for (a, b) in [(0u8, 1u8), (1, 2), (0, 2), (2, 0)] {
+            ops.push(Op::EqCheck { a, b });
+            ops.push(Op::SAlgebra { a, b, alg: SetAlg::Eq });
+        }
+        for m in 0..3u8 {
+            ops.push(Op::DebugCheck { m });
+            ops.push(Op::SDebugCheck { s: m });
+            let kind = *rng.pick(&[IterKind::Iter, IterKind::IterMut, IterKind::Keys, IterKind::Values, IterKind::ValuesMut, IterKind::RefIntoIter]);
+            ops.push(Op::IterCheck { m, kind, clone_at: None });
+            ops.push(Op::SIterCheck { s: m, clone_at: None });
+        }
+    };
+    observe(&mut ops, rng);
+    // minimal difference: one value changed (preferably an element in the old table) in one map,
+    // one element removed or added in one set
+    if !target.is_empty() {
+        let victim = rng.below(3) as u8;
+        let fb = target[rng.below(target.len() as u64) as usize].0;
+        let k = if rng.chance(2, 3) { KeySel::Old(rng.below(16) as u32, fb) } else { KeySel::Kv(fb) };
+        ops.push(Op::GetMut { m: victim, k, p: 900_000 });
+        let victim = rng.below(3) as u8;
+        let k = if rng.chance(2, 3) { KeySel::Old(rng.below(16) as u32, fb) } else { KeySel::Kv(fb) };
+        ops.push(Op::SRemove { s: victim, k });
+    } else if uni > 0 {
+        ops.push(Op::Insert { m: rng.below(3) as u8, k: KeySel::Kv(0), p: 900_000 });
+        ops.push(Op::SInsert { s: rng.below(3) as u8, k: KeySel::Kv(0) });
+    }
+    observe(&mut ops, rng);
+    cfg.full_check_every = if ops.len() > 400 { 16 } else { 1 };
     RunSpec { cfg, ops, faults: Vec::new() }
 }
